@@ -2224,7 +2224,7 @@ theorem updTid_of_rec {s s' : St} {a b : Node} {l : Option Nat} {r : PrimRec}
   · exact pUpdTid_rec h
   · cases h
 
-def invStep (acc : St × Except Err (List PrimRec)) (p : PrimRec) : St × Except Err (List PrimRec) :=
+def invStepF (acc : St × Except Err (List PrimRec)) (p : PrimRec) : St × Except Err (List PrimRec) :=
   match acc.2 with
   | .error e => (acc.1, .error e)
   | .ok done =>
@@ -2232,8 +2232,8 @@ def invStep (acc : St × Except Err (List PrimRec)) (p : PrimRec) : St × Except
     | .ok (s', r) => (s', .ok (done ++ [r]))
     | .error e => (acc.1, .error e)
 
-theorem invGroup_eq (s : St) (recs : List PrimRec) :
-    s.invGroup recs = recs.reverse.foldl invStep (s, .ok []) := rfl
+theorem invGroup_eqF (s : St) (recs : List PrimRec) :
+    s.invGroup recs = recs.reverse.foldl invStepF (s, .ok []) := rfl
 
 theorem findNode_of_mem {s : St} {n : Node} (h : n ∈ s.ids) : ∃ r, s.findNode n = some r := by
   rw [← hasNode_iff] at h
@@ -2244,16 +2244,16 @@ theorem findNode_of_mem {s : St} {n : Node} (h : n ∈ s.ids) : ∃ r, s.findNod
 
 theorem invFold_upds (l : List PrimRec) (s : St) (d : List PrimRec)
     (h : ∀ r ∈ l, IsUpd s.ids r) :
-    ∃ s' d', l.foldl invStep (s, .ok d) = (s', .ok d') ∧ G s' = G s := by
+    ∃ s' d', l.foldl invStepF (s, .ok d) = (s', .ok d') ∧ G s' = G s := by
   induction l generalizing s d with
   | nil => exact ⟨s, d, rfl, rfl⟩
   | cons p r ih =>
     obtain ⟨st, oT, nT, oL, nL, hp, hm⟩ := h p List.mem_cons_self
     obtain ⟨nr, hnr⟩ := findNode_of_mem hm
-    have h1 : invStep (s, .ok d) p =
+    have h1 : invStepF (s, .ok d) p =
         (s.walk st nr.tid oT nr.lin oL, .ok (d ++ [.updTid st nr.tid oT nr.lin oL])) := by
       subst hp
-      simp [invStep, invPrim, pUpdTid, hnr]
+      simp [invStepF, invPrim, pUpdTid, hnr]
     rw [List.foldl_cons, h1]
     have hG : G (s.walk st nr.tid oT nr.lin oL) = G s := G_walk _ _ _ _ _ _
     obtain ⟨s', d', e1, e2⟩ := ih (s.walk st nr.tid oT nr.lin oL) _
@@ -2326,14 +2326,14 @@ theorem rollback_uDeleteEdge {s : St} {e : Edge} {recs : List PrimRec}
   generalize (s.uDeleteEdge e).1 = s1 at hG ⊢
   have hids : s1.ids = s.ids := by rw [ids_eq_nt, ids_eq_nt, G_nt' hG]
   unfold rollback
-  rw [invGroup_eq, hrecs, List.reverse_cons, List.foldl_append]
+  rw [invGroup_eqF, hrecs, List.reverse_cons, List.foldl_append]
   obtain ⟨s2, d2, e1, e2⟩ := invFold_upds rest.reverse s1 []
     (fun r hr => by rw [hids]; exact hrest r (List.mem_reverse.mp hr))
   rw [e1]
   have hids2 : s2.ids = s.ids := by rw [G_ids e2, hids]
   obtain ⟨s3, r3, h3⟩ := pAddEdge_isOk (s := s2) saved (by rw [hids2]; exact h1) (by rw [hids2]; exact h2)
-  have : [PrimRec.delEdge e saved].foldl invStep (s2, .ok d2) = (s3, .ok (d2 ++ [r3])) := by
-    simp [invStep, invPrim, h3]
+  have : [PrimRec.delEdge e saved].foldl invStepF (s2, .ok d2) = (s3, .ok (d2 ++ [r3])) := by
+    simp [invStepF, invPrim, h3]
   rw [this]
   obtain ⟨-, -, hG3⟩ := pAddEdge_G h3
   rw [hG3, G_nt e2, G_es e2, G_nt' hG, G_es' hG]
